@@ -28,6 +28,7 @@ try:
 finally:
     subprocess.run(['git', '-C', REPO, 'checkout', '--', '.'], check=True)
     subprocess.run([sys.executable, os.path.join(V, 'tools', 'extract_consts.py'), REPO, os.path.join(V, 'lean', 'DnsVerif', 'Generated')], capture_output=True)
+    subprocess.run([sys.executable, os.path.join(V, 'tools', 'extract_steps.py'), REPO, os.path.join(V, 'lean', 'DnsVerif', 'Generated')], capture_output=True)
 out = os.path.join(sd, 'detection.json')
 old = json.load(open(out)) if os.path.exists(out) else {}
 old.update(res)
